@@ -8,6 +8,7 @@ kind 4  [4, fmt, texts, [m0, ti0], steps]         the real reloader thread (chil
 kind 5  [5, configs, seq, probes]                 GLOBAL logger behind the log facade (child process per scenario):
                                                   init_config, then set_config per seq entry, probes through log!"""
 import itertools
+import os
 import subprocess
 from concurrent.futures import ThreadPoolExecutor
 
@@ -369,10 +370,10 @@ def cases(rng, tier):
         # builds the components, after it has read the text): init_file pairs the text it read with the modification
         # time of that moment, so the thread's first poll sees the edit
         out.append(build_history(n6 % 3, list(acts), kind=6, RATES=LOCKSTEP_RATES[n6 % len(LOCKSTEP_RATES)],
-                                 link=(n6 // 3) % 2 + 2 * ((n6 // 6) % 2)))
+                                 link=(n6 // 3) % 2 + 2 * ((n6 // 6) % 2) + 4 * ((n6 // 2) % 2)))
     for _ in range(60 if tier == "quick" else 1500):
         acts = [rng.choice([0, 0, 1, 2, 3, 3, 4, 5, 6, 7, 8, 9, 10, 11, 12, 13]) for _ in range(rng.range(4, 9))]
-        out.append(build_history(rng.below(3), acts, kind=6, RATES=rng.choice(LOCKSTEP_RATES), link=rng.below(4)))
+        out.append(build_history(rng.below(3), acts, kind=6, RATES=rng.choice(LOCKSTEP_RATES), link=rng.below(8)))
     for _ in range(6 if tier == "quick" else 40):
         acts = [rng.choice([0, 0, 2, 3, 4, 5, 6, 7, 8]) for _ in range(rng.range(2, 4))]
         out.append(build_history(rng.below(3), acts, kind=4))
@@ -436,8 +437,12 @@ def run_impl(ctx, cases, lines):
                 return "xmodelcrash"
             data = (lines[i] + "\n" + vc.show(want) + "\n").encode()
             try:
-                p = subprocess.run([vh, "live" if cases[i][0] == 4 else "live2"], input=data, stdout=subprocess.PIPE, stderr=subprocess.PIPE,
-                                   timeout=120, env=vc.ENV)
+                # kind 6, flag 4: the process's stderr cannot be written (/dev/full): reporting a failed poll fails too,
+                # which is nobody else's business - the thread keeps polling
+                full = cases[i][0] == 6 and len(cases[i]) > 6 and cases[i][6] & 4
+                with (open("/dev/full", "wb") if full else open(os.devnull, "wb")) as errf:
+                    p = subprocess.run([vh, "live" if cases[i][0] == 4 else "live2"], input=data, stdout=subprocess.PIPE,
+                                       stderr=errf, timeout=120, env=vc.ENV)
             except subprocess.TimeoutExpired:
                 hung[0] += 1
                 return "xhang"
@@ -558,7 +563,7 @@ def compare(c, impl, model):
                         % (n + 1, ACTIONS[c[5][n]] if n < len(c[5]) else "?", a, b))
         return None if len(impl[1]) == len(model[1]) else "number of polls differs"
     if k == 6:
-        where = "real init_file + refresh thread in lock step%s" % ((", config path a re-pointed symbolic link" if c[6] & 1 else "") + (", first edit made during init_file" if c[6] & 2 else ""))
+        where = "real init_file + refresh thread in lock step%s" % ((", config path a re-pointed symbolic link" if c[6] & 1 else "") + (", first edit made during init_file" if c[6] & 2 else "") + (", stderr unwritable" if c[6] & 4 else ""))
         if not impl or not model:
             return "%s: no observation" % where
         if impl[0] != model[0]:
